@@ -221,3 +221,17 @@ prop("C18", level="proof", bounded=True,
      note="Trusted: pyvc, z3/cvc5; Tensor.getRankIds and Fiber.getShape(all_ranks=False) abstracted by ghost fields (tier T); Fiber.__len__ proved for eager fibers.",
      also=["Fiber.__len__"],
      trusted_base=["Tensor.getRankIds ghost list (tier T)", "Fiber.getShape ghost shape (tier T)"])
+
+prop("C19", level="exploration", bounded=True,
+     technique="bounded: model totals from real intersect_i traces vs an independent merge of the raw coordinate lists; deductive core: leader-follower model",
+     text="Bounded (not proved): all pairs of coordinate lists over 4 (quick) / 5 (thorough) coordinates (empty, disjoint, interleaved, identical), all "
+          "pairs of two consecutive fibers over 3 coordinates and seeded random 2-3 consecutive fibers over 6, run through the real a & b with "
+          "intersect_0/intersect_1 traces under a real outer loop, fed to the three models fiber by fiber and in one shot: two-finger == comparison "
+          "steps of an independent two-finger merge, skip-ahead == same-side runs + matches, leader-follower == rows presented, totals independent of "
+          "batching; swap counts for 2-5 sub-fibers, radices 2..5/inf, latencies 1, 2, 'N' and two payload value sets against an independent "
+          "round-by-round re-computation. Proved core: LeaderFollowerIntersector.addTraces (count += rows, header discounted exactly once, hence "
+          "additive over batches). The other models slice and lexicographically compare lists of trace rows, and Compute builds lists of lists "
+          "through sort/bisect/pop -- outside pyvc's subset.",
+     note="Exploration level.",
+     also=["LeaderFollowerIntersector"],
+     trusted_base=[])
